@@ -55,6 +55,13 @@ CLAIMED.update({
    note="The model does not mirror the Text children that carry attribute values, entity-reference subtrees (read-only targets) or DocumentType children; exhaustive enumeration of short histories is not done (seeded sampling only)."),
 })
 
+CLAIMED.update({
+ "C14": dict(engine="domsim", cat="exploration", ref="5.C14",
+   technique="deterministic simulation: a seeded scheduler interleaves a tree-mutator task (the C13 operation set) with view tasks that create, step and query NodeIterators, TreeWalkers, live tag-name lists, ID lookups and Ranges on real xerces-c documents; every view is paired with an executable reference model over RefDOM (DOM Level 2 Traversal / Range rules) that observes each primitive tree mutation; answers compared per operation, range boundary points and walker positions after every step",
+   text="Each run grows a tree of some depth (3-30 nodes) and then executes a seeded interleaving (quick 3-40 steps, thorough up to 800) in which about half of the steps are tree mutations with arbitrary operands (insert / append / remove / replace incl. fragments and moves, normalize, splitText, character-data edits, setTextContent, renameNode, adoptNode, attribute edits) and half are view operations: createNodeIterator / createTreeWalker with 8 whatToShow masks and 4 filters (none, accept+skip, accept+skip+reject, accept+reject, each a pure function of node identity), nextNode / previousNode / detach, the seven walker moves and setCurrentNode, getElementsByTagName lists with item() at random indices, setIdAttribute + getElementById, createRange, the nine boundary setters with arbitrary nodes and in- and out-of-range offsets, toString, compareBoundaryPoints, cloneContents / extractContents / deleteContents, insertNode, surroundContents, cloneRange, detach. Oracles: each call's result and exception against the reference model; after every step start/end container and offset, collapsed and commonAncestorContainer of every live range (validity - one tree, offsets in bounds, start not after end - is an invariant of the model) and getCurrentNode of every walker; iterators never return a node outside their root; fragments returned by clone/extract are compared node by node incl. which nodes must be the original (moved) ones; the C13 tree comparison runs after every step as well.",
+   note="Where DOM Level 2 leaves behaviour open the harness does not judge and says so in sim/domviews.hpp: nodes of another document as range operands, range boundaries in trees not rooted at a Document / DocumentFragment, a TreeWalker whose current node is outside its root or inside a rejected subtree, insertNode / surroundContents with a start inside a comment or PI, surroundContents with a newParent that has children or is read-only, toString with a boundary inside a comment / PI, getElementById with several or detached candidates, the position of a boundary point right behind a replaced child / a split text node (the order xerces-c uses is mirrored). XPath results are not covered."),
+})
+
 NOT_APPLICABLE = {
  "C03": "pure function of (document text, settings) to an event stream; no schedule, fault or history in it - deciding it needs an independent infoset oracle over generated inputs (property-based testing), not simulation; its only environment-dependent part (refill boundaries) is decided under C04",
  "C05": "finite pure function over code points and byte sequences, decided by enumeration, not by sampling schedules or faults; 'every buffer split position' is exercised by C04's targeted chunking",
